@@ -22,6 +22,13 @@
 // harness/adapters/blockexec does, node.BuildWith); a candidate that does not fit is neither packaged nor discarded by
 // the miner (logged as inc=false, left=true).
 //
+// Voters at balance zero.  Account a5 holds a key and owns nothing (the setup chain never touches it): VoteBy lets it vote
+// with its gas paid by another account; SpendAll makes an account send away what it really owns to the last unit (read from
+// the real state after the candidates before).  Mixed boxes.  MixedBox carries arbitrary sub transactions (templates of
+// the spec: candidate / vote / asset transactions next to transfers); a box whose later sub transaction is invalid is given
+// up by the miner and logged as discarded with all its sub transactions - what it left behind shows in the logged state.
+// Every state also lists the node's candidate ranking at that block (store.GetCandidatesTop: votes per listed candidate).
+//
 // Worlds.  The initial state of a behaviour names the term duration T, the interim duration I and the height h0 of
 // the last setup block (st.T, st.I, st.h).  With the real durations (the "mid-term" world) the scenario blocks are
 // heights 4-5 of the genesis term, never confirmed, and every behaviour forks off the last setup block of one node
@@ -234,6 +241,7 @@ func (a *adapter) init() {
 	for i := 1; i <= 4; i++ {
 		a.add(fmt.Sprintf("a%d", i), detKey(0xc0, i), common.Address{})
 	}
+	a.add("a5", detKey(0xc0, 5), common.Address{}) // holds a key and owns NOTHING: the setup chain never touches it
 	a.add("I", detKey(0xc1, 0), common.Address{})
 	for i := 0; i < 2; i++ { // the deputies' miner addresses (node.NewWorld derives them from these keys)
 		a.add(fmt.Sprintf("M%d", i+1), detKey(0xa0, i), common.Address{})
@@ -837,6 +845,20 @@ func (a *adapter) state(db *store.ChainDatabase, h common.Hash, bad *[]string) m
 		idx[n] = true
 	}
 	st["idx"], st["stab"] = idx, a.wd != nil && a.wd.stab
+	// the node's candidate RANKING at this block (the list the election reads, maintained from the blocks' votes change
+	// logs): the votes it records for every entry
+	rank := map[string]int64{}
+	for _, c := range db.GetCandidatesTop(h) {
+		n, ok := a.byAddr[c.GetAddress()]
+		if !ok {
+			engine.Failf("candidate ranking names an address outside the universe: %s", c.GetAddress().String())
+		}
+		if _, dup := rank[n]; dup {
+			*bad = append(*bad, "rank."+n+" listed twice")
+		}
+		rank[n] = small(c.GetTotal(), "rank."+n, bad)
+	}
+	st["rank"] = rank
 	is := am.GetAccount(a.byName["a4"].addr)
 	for _, d := range assetDefs {
 		h := a.code(d.name)
@@ -928,7 +950,11 @@ func (a *adapter) minerFor(parent *types.Block) int {
 			return c
 		}
 	}
-	engine.Failf("no genesis deputy signs at height %d", parent.Height()+1)
+	// The setup chain of a term-boundary world is built so that genesis deputy M2 is re-elected (it holds more votes than
+	// every candidate but a3).  The unchanged code elects it; if the code under test elects somebody else the honest
+	// scenario cannot go on - a failure of the real code, not of the harness (the reset event carries the observation:
+	// ranking, votes and elected nodes).
+	engine.Realf("no genesis deputy signs at height %d: the snapshot block of the setup chain did not elect M2", parent.Height()+1)
 	return 0
 }
 
@@ -997,6 +1023,31 @@ func (a *adapter) logBlock(fl engine.Fields, db *store.ChainDatabase, blk *types
 	fl["touched"] = tl
 }
 
+// mixedBoxGas: gas limit of a box with arbitrary sub transactions (its own gas grows with the size of its data)
+const mixedBoxGas = 300000
+
+// subOf: the sub transaction a template of the spec names (Ledger.tla SubTx: amounts of LEMO kinds in LEMO, gas limit by kind)
+func subOf(r tla.Value) *atx {
+	k := r.F("k").S()
+	amt, gl := int64(r.F("amt").I()), uint64(100000)
+	switch k {
+	case "xfer":
+		amt, gl = amt*lemo, 30000
+	case "vote":
+		gl = 40000
+	case "reg", "topup":
+		amt, gl = amt*lemo, 130000
+	case "unreg":
+		gl = 130000
+	case "issue", "repl", "axfer", "freeze", "unfreeze":
+	default:
+		engine.Failf("unknown sub transaction kind %q", k)
+	}
+	t := mk(k, r.F("f").S(), r.F("t").S(), amt, gl)
+	t.C, t.ID = r.F("c").S(), r.F("id").S()
+	return t
+}
+
 func (a *adapter) Apply(s engine.Step) (engine.Fields, error) {
 	// a panic of the code under test is logged by the engine; the nodes it happened on are not used again
 	defer func() {
@@ -1021,6 +1072,20 @@ func (a *adapter) Apply(s engine.Step) (engine.Fields, error) {
 		t = &atx{K: "xfer", F: str(0), T: str(1), Amt: num(2) * lemo, P: str(3), GL: gl, GP: 1}
 	case "Vote":
 		t = mk("vote", str(0), str(1), 0, 40000)
+	case "VoteBy": // voter, candidate, gas payer (the voter may own nothing)
+		t = mk("vote", str(0), str(1), 0, 40000)
+		t.P = str(2)
+	case "SpendAll": // f, t, gas payer: f sends away its WHOLE balance, to the last unit - what it really owns after the candidates before
+		at := a.parent.Hash()
+		if len(a.pending) > 0 && a.last != nil {
+			at = a.last.Hash()
+		}
+		all := account.NewManager(at, a.B.DB).GetAccount(a.byName[str(0)].addr).GetBalance()
+		bad := []string{}
+		t = &atx{K: "xfer", F: str(0), T: str(1), Amt: toUnits(all, "spendall."+str(0), &bad), P: str(2), GL: 30000, GP: 1}
+		if len(bad) != 0 {
+			engine.Failf("SpendAll: balance is not a whole number of units: %v", bad)
+		}
 	case "Register":
 		t = mk("reg", str(0), "", num(1)*lemo, 130000)
 	case "TopUp":
@@ -1066,6 +1131,12 @@ func (a *adapter) Apply(s engine.Step) (engine.Fields, error) {
 		for i := int64(0); i < num(4); i++ {
 			t.Subs = append(t.Subs, mk("xfer", str(1), str(2), num(3)*lemo, 30000))
 		}
+	case "MixedBox": // box sender, box gas price, sequence of sub transaction templates [k, f, t, amt, c, id]
+		t = mk("box", str(0), "", 0, mixedBoxGas)
+		t.GP = num(1)
+		for _, r := range ar[2].Elems {
+			t.Subs = append(t.Subs, subOf(r))
+		}
 	case "EndBlock":
 		if a.last == nil || len(a.pending) == 0 {
 			a.pending = nil
@@ -1078,6 +1149,11 @@ func (a *adapter) Apply(s engine.Step) (engine.Fields, error) {
 		}
 		if err != nil {
 			fl["verr"] = err.Error()
+			cl := []string{} // what the miner sealed, for the report (the validator recomputes other change logs)
+			for _, l := range a.last.ChangeLogs {
+				cl = append(cl, fmt.Sprintf("%s %s v%d", l.LogType.String(), a.byAddr[l.Address], l.Version))
+			}
+			fl["minerlogs"] = cl
 			a.logBlock(fl, a.B.DB, a.last, a.lastTxs)
 		} else {
 			a.logBlock(fl, a.V.DB, a.last, a.lastTxs) // the validator's own account data
